@@ -301,6 +301,10 @@ def _check_tree(run):
     except BaseException as e:  # noqa
         run.inconclusive("trimesh not importable: %r" % (e,))
         return False
+    # trimesh logs (with tracebacks) on fallbacks it handles itself; keep check output clean
+    import logging
+
+    logging.getLogger("trimesh").setLevel(logging.CRITICAL + 1)
     where = os.path.realpath(os.path.dirname(trimesh.__file__))
     want = os.path.realpath(os.path.join(REPO, "trimesh"))
     if where != want:
@@ -361,6 +365,14 @@ def finish(mod, run, wall):
             new[key] = v
 
     os.makedirs(REPLAY_DIR, exist_ok=True)
+    if not run.replaying:
+        # witnesses of earlier runs of this property are superseded by this run
+        for old in os.listdir(REPLAY_DIR):
+            if old.startswith(prop + "-") and old.endswith(".json"):
+                try:
+                    os.remove(os.path.join(REPLAY_DIR, old))
+                except OSError:
+                    pass
     lines = []
     for key, f in sorted(open_keys.items()):
         seen = known_seen.get(key)
